@@ -295,6 +295,39 @@ package parser
 //@   ensures [progress] old(p.tok) != token.EOF && old(p.tok) != token.RPAREN && old(p.tok) != token.RBRACE ==>
 //@           rem(p) < old(rem(p)) || (rem(p) == old(rem(p)) && syncRank(p) < old(syncRank(p)))
 //@
+//@ # ---- C13, a first step above the layer: two parse functions with no functional claim, only "no panic escapes":
+//@ # their callees among the parse functions are ASSUMED to keep pinv and are otherwise arbitrary (assigns everything);
+//@ # termination of their loops depends on those callees and is not claimed
+//@ trusted (*parser).parseForPhrases
+//@   requires pinv(p)
+//@   assigns everything
+//@   ensures pinv(p)
+//@ trusted (*parser).parseElement
+//@   requires pinv(p)
+//@   assigns everything
+//@   ensures pinv(p)
+//@ trusted (*parser).parseExpr
+//@   requires pinv(p)
+//@   assigns everything
+//@   ensures pinv(p)
+//@ trusted (*parser).toIdent
+//@   requires p != nil && p.file != nil
+//@   assigns p.errors, elems(p.errors)
+//@ func (*parser).atComma
+//@   requires p != nil && p.file != nil
+//@   assigns p.errors, elems(p.errors)
+//@ func (*parser).parseElementListOrComprehension
+//@   option termination off
+//@   requires pinv(p)
+//@   assigns everything
+//@   ensures pinv(p)
+//@ loop (*parser).parseElementListOrComprehension#1
+//@   invariant pinv(p)
+//@ func (*parser).parseForPhraseStmtPart
+//@   requires pinv(p)
+//@   assigns everything
+//@   ensures pinv(p) && result != nil
+//@
 //@ func (*parser).advance
 //@   requires pinv(p)
 //@   assigns p.pos, p.tok, p.lit, p.old, p.scanner, p.comments, elems(p.comments), p.leadComment, p.lineComment, p.syncPos, p.syncCnt
